@@ -4,6 +4,7 @@ package main
 
 import (
 	"bufio"
+	"bytes"
 	crand "crypto/rand"
 	"encoding/binary"
 	"fmt"
@@ -316,6 +317,19 @@ func c14StatelessCase(w *bufio.Writer, r *u.Rng, idx int, dist map[string]int) {
 		}
 		if n >= 5 && data[0]&0x80 != 0 && data[1]|data[2]|data[3]|data[4] == 0 {
 			monfail("stateless/reply-to-vn", "reply to a Version Negotiation packet")
+		}
+		// issuance (server.go sendRetryPacket): the token of a Retry is a Retry token for the address the Initial came from,
+		// carrying the Initial's destination connection ID and the Retry's own source connection ID
+		if kind == 2 {
+			if tk, rscid, ok := quic.VerifC14RetryFields(rp); !ok {
+				monfail("stateless/retry-token-issuance", "Retry packet does not parse")
+			} else if t, err := srv.TokenGenerator().DecodeToken(tk); err != nil || t == nil {
+				monfail("stateless/retry-token-issuance", fmt.Sprintf("the token of a Retry does not decode with the server's own key: %v", err))
+			} else if !t.IsRetryToken || !t.ValidateRemoteAddr(from) || t.ValidateRemoteAddr(&net.UDPAddr{IP: net.IPv4(10, 9, 9, 9), Port: from.Port}) ||
+				!bytes.Equal(t.OriginalDestConnectionID.Bytes(), dcid) || !bytes.Equal(t.RetrySrcConnectionID.Bytes(), rscid) || now.Sub(t.SentTime) != 0 {
+				monfail("stateless/retry-token-issuance", fmt.Sprintf("Retry token issued with retry=%v odcid=%x rscid=%x sent=%v for an Initial from %v with DCID %x (Retry SCID %x, now %v)",
+					t.IsRetryToken, t.OriginalDestConnectionID.Bytes(), t.RetrySrcConnectionID.Bytes(), t.SentTime.UnixNano(), from, dcid, rscid, now.UnixNano()))
+			}
 		}
 		// no reply to a reply: the reply, arriving at an identically configured server, is answered by silence
 		peer := quic.VerifNewC14Stateless(o)
